@@ -184,6 +184,425 @@ theorem isStop_false {g : Grammar} (hg : Plain g) (i : Nat) :
     simp only [plainNode, Bool.and_eq_true] at hn
     cases hk : n.kind <;> simp_all [plainKind]
 
+/-! ### the reading is a partial function -/
+
+
+theorem leaf_wrapped_absurd {k : Kind} {s : List Char} {loc : Nat} {r : Res} {e : Nat}
+    (h1 : leafSem k s loc = some r) (h2 : wrapped k = some e) : False := by
+  cases k <;> simp_all [leafSem, wrapped, termImpl]
+
+theorem Sem.det {g : Grammar} {s : List Char} {t : Task} {r1 : Res} (h1 : Sem g s t r1) :
+    ∀ r2, Sem g s t r2 → r1 = r2 := by
+  induction h1 with
+  | node hg _ ih =>
+    intro r2 h2
+    cases h2 with
+    | node hg2 h2' => rw [hg] at hg2; cases hg2; rw [ih _ h2']
+  | leaf hl =>
+    intro r2 h2
+    cases h2 with
+    | wrap hw _ => exact (leaf_wrapped_absurd hl hw).elim
+    | _ => simp_all [leafSem, termImpl]
+  | andFail hk _ ih =>
+    intro r2 h2
+    cases h2 with
+    | leaf hl => simp_all [leafSem, termImpl]
+    | wrap hw _ => simp_all [wrapped]
+    | andFail hk2 _ => rfl
+    | andOk hk2 h0 _ => rw [hk] at hk2; cases hk2; exact absurd (ih _ h0) (by simp)
+    | _ => simp_all
+  | andOk hk _ _ ih0 ih1 =>
+    intro r2 h2
+    cases h2 with
+    | leaf hl => simp_all [leafSem, termImpl]
+    | wrap hw _ => simp_all [wrapped]
+    | andFail hk2 h0 => rw [hk] at hk2; cases hk2; exact absurd (ih0 _ h0) (by simp)
+    | andOk hk2 h0 h1 =>
+      rw [hk] at hk2; cases hk2
+      have := ih0 _ h0
+      simp only [Option.some.injEq, Prod.mk.injEq] at this
+      obtain ⟨rfl, rfl⟩ := this
+      exact ih1 _ h1
+    | _ => simp_all
+  | seqNil => intro r2 h2; cases h2; rfl
+  | seqFail _ ih =>
+    intro r2 h2
+    cases h2 with
+    | seqFail _ => rfl
+    | seqOk h0 _ => exact absurd (ih _ h0) (by simp)
+  | seqOk _ _ ih0 ih1 =>
+    intro r2 h2
+    cases h2 with
+    | seqFail h0 => exact absurd (ih0 _ h0) (by simp)
+    | seqOk h0 h1 =>
+      have := ih0 _ h0
+      simp only [Option.some.injEq, Prod.mk.injEq] at this
+      obtain ⟨rfl, rfl⟩ := this
+      exact ih1 _ h1
+  | matchFirst hk _ ih =>
+    intro r2 h2
+    cases h2 with
+    | leaf hl => simp_all [leafSem, termImpl]
+    | wrap hw _ => simp_all [wrapped]
+    | matchFirst hk2 h0 => rw [hk] at hk2; cases hk2; exact ih _ h0
+    | _ => simp_all
+  | altNil => intro r2 h2; cases h2; rfl
+  | altOk _ ih =>
+    intro r2 h2
+    cases h2 with
+    | altOk h0 => exact ih _ h0
+    | altNext h0 _ => exact absurd (ih _ h0) (by simp)
+  | altNext _ _ ih0 ih1 =>
+    intro r2 h2
+    cases h2 with
+    | altOk h0 => exact absurd (ih0 _ h0) (by simp)
+    | altNext _ h1 => exact ih1 _ h1
+  | opt hk _ ih =>
+    intro r2 h2
+    cases h2 with
+    | leaf hl => simp_all [leafSem, termImpl]
+    | wrap hw _ => simp_all [wrapped]
+    | opt hk2 h0 => rw [hk] at hk2; cases hk2; rw [ih _ h0]
+    | _ => simp_all
+  | manyFail hk _ ih =>
+    intro r2 h2
+    cases h2 with
+    | leaf hl => simp_all [leafSem, termImpl]
+    | wrap hw _ => simp_all [wrapped]
+    | manyFail hk2 _ => rw [hk] at hk2; cases hk2; rfl
+    | manyOk hk2 h0 _ => rw [hk] at hk2; cases hk2; exact absurd (ih _ h0) (by simp)
+    | _ => simp_all
+  | manyOk hk _ _ ih0 ih1 =>
+    intro r2 h2
+    cases h2 with
+    | leaf hl => simp_all [leafSem, termImpl]
+    | wrap hw _ => simp_all [wrapped]
+    | manyFail hk2 h0 => rw [hk] at hk2; cases hk2; exact absurd (ih0 _ h0) (by simp)
+    | manyOk hk2 h0 h1 =>
+      rw [hk] at hk2; cases hk2
+      have := ih0 _ h0
+      simp only [Option.some.injEq, Prod.mk.injEq] at this
+      obtain ⟨rfl, rfl⟩ := this
+      exact ih1 _ h1
+    | _ => simp_all
+  | starStop _ ih =>
+    intro r2 h2
+    cases h2 with
+    | starStop _ => rfl
+    | starStep h0 _ _ => exact absurd (ih _ h0) (by simp)
+  | starStep _ _ _ ih0 ih1 =>
+    intro r2 h2
+    cases h2 with
+    | starStop h0 => exact absurd (ih0 _ h0) (by simp)
+    | starStep h0 _ h1 =>
+      have := ih0 _ h0
+      simp only [Option.some.injEq, Prod.mk.injEq] at this
+      obtain ⟨rfl, rfl⟩ := this
+      exact ih1 _ h1
+  | notAny hk _ ih =>
+    intro r2 h2
+    cases h2 with
+    | leaf hl => simp_all [leafSem, termImpl]
+    | wrap hw _ => simp_all [wrapped]
+    | notAny hk2 h0 => rw [hk] at hk2; cases hk2; rw [ih _ h0]
+    | _ => simp_all
+  | followedBy hk _ ih =>
+    intro r2 h2
+    cases h2 with
+    | leaf hl => simp_all [leafSem, termImpl]
+    | wrap hw _ => simp_all [wrapped]
+    | followedBy hk2 h0 => rw [hk] at hk2; cases hk2; rw [ih _ h0]
+    | _ => simp_all
+  | or hk _ ih =>
+    intro r2 h2
+    cases h2 with
+    | leaf hl => simp_all [leafSem, termImpl]
+    | wrap hw _ => simp_all [wrapped]
+    | or hk2 h0 => rw [hk] at hk2; cases hk2; exact ih _ h0
+    | _ => simp_all
+  | orNil => intro r2 h2; cases h2; rfl
+  | orCons _ _ ih0 ih1 =>
+    intro r2 h2
+    cases h2 with
+    | orCons h0 h1 => rw [ih0 _ h0, ih1 _ h1]
+  | wrap hw _ ih =>
+    intro r2 h2
+    cases h2 with
+    | leaf hl => exact (leaf_wrapped_absurd hl hw).elim
+    | wrap hw2 h0 => rw [hw] at hw2; cases hw2; exact ih _ h0
+    | _ => simp_all [wrapped]
+
+/-! ### `^` -/
+
+/-- how the best trial candidate relates to a result of the reading -/
+def OrRel (g : Grammar) (s : List Char) (loc : Nat) : Option (Nat × Nat) → Res → Prop
+  | none, none => True
+  | some b, some x => b.1 = x.1 ∧ Sem g s (.node b.2 loc true) (some x)
+  | _, _ => False
+
+/-- the trial pass's candidate entry of one alternative -/
+def trialCand (p : P) (loc e : Nat) : Option (Nat × Nat) :=
+  match tryParse p e loc true false with
+  | .ok l _ => some (l, e)
+  | _ => none
+
+theorem tryParse_true (p : P) (e loc : Nat) (da : Bool) : tryParse p e loc true da = p e loc da true := by
+  unfold tryParse
+  cases p e loc da true <;> simp
+
+theorem orPass1_nohang (p : P) (nl : Nat → Nat) (slen loc : Nat) :
+    ∀ es a a', orPass1 p nl slen loc es a = some a' → ∀ e ∈ es, p e loc false true ≠ .hang := by
+  intro es
+  induction es with
+  | nil => intro _ _ _ e he; cases he
+  | cons e es ih =>
+    intro a a' h x hx
+    unfold orPass1 at h
+    rw [tryParse_true] at h
+    cases hp : p e loc false true with
+    | hang => rw [hp] at h; simp at h
+    | ok l ts =>
+      rw [hp] at h
+      rcases List.mem_cons.mp hx with rfl | hx
+      · rw [hp]; simp
+      · exact ih _ _ h x hx
+    | idx =>
+      rw [hp] at h
+      rcases List.mem_cons.mp hx with rfl | hx
+      · rw [hp]; simp
+      · exact ih _ _ h x hx
+    | fail c l =>
+      rw [hp] at h
+      rcases List.mem_cons.mp hx with rfl | hx
+      · rw [hp]; simp
+      · simp only at h
+        split at h
+        · exact ih _ _ h x hx
+        · split at h <;> exact ih _ _ h x hx
+
+theorem orPass1_some (p : P) (nl : Nat → Nat) (slen loc : Nat) :
+    ∀ es a, (∀ e ∈ es, p e loc false true ≠ .hang) → ∃ a', orPass1 p nl slen loc es a = some a' := by
+  intro es
+  induction es with
+  | nil => intro a _; exact ⟨a, rfl⟩
+  | cons e es ih =>
+    intro a h
+    have he := h e (List.mem_cons_self)
+    have hes : ∀ x ∈ es, p x loc false true ≠ .hang := fun x hx => h x (List.mem_cons_of_mem _ hx)
+    unfold orPass1
+    rw [tryParse_true]
+    cases hp : p e loc false true with
+    | hang => exact absurd hp he
+    | ok l ts => exact ih _ hes
+    | idx => exact ih _ hes
+    | fail c l =>
+      simp only
+      split
+      · exact ih _ hes
+      · split <;> exact ih _ hes
+
+theorem orPass1_fatals {g : Grammar} {s : List Char} {p : P} (hp : AgreeP g s p) (nl : Nat → Nat) (slen loc : Nat) :
+    ∀ es a a', orPass1 p nl slen loc es a = some a' → a.fatals = [] → a'.fatals = [] := by
+  intro es
+  induction es with
+  | nil => intro a a' h hf; simp [orPass1] at h; subst h; exact hf
+  | cons e es ih =>
+    intro a a' h hf
+    have hag := hp e loc false true
+    unfold orPass1 at h
+    rw [tryParse_true] at h
+    cases hpe : p e loc false true with
+    | hang => rw [hpe] at h; simp at h
+    | ok l ts => rw [hpe] at h; exact ih _ _ h hf
+    | idx => rw [hpe] at hag; exact hag.elim
+    | fail c l =>
+      rw [hpe] at hag h
+      obtain ⟨hc, _⟩ := hag
+      subst hc
+      simp only [Exc.isFatal, Bool.false_eq_true, if_false, hf, List.isEmpty_nil, Bool.not_true] at h
+      exact ih _ _ h (by simpa using hf)
+
+/-- the reading of the scan, from the trial parses: exists, and its result is the best candidate -/
+theorem orScan_sound {g : Grammar} {s : List Char} {p : P} (hp : AgreeP g s p) (loc : Nat) :
+    ∀ es, (∀ e ∈ es, p e loc false true ≠ .hang) →
+      ∃ r, Sem g s (.orScan es loc) r ∧ OrRel g s loc (best (es.filterMap (trialCand p loc))) r := by
+  intro es
+  induction es with
+  | nil => intro _; exact ⟨none, .orNil, trivial⟩
+  | cons e es ih =>
+    intro h
+    obtain ⟨r2, hs2, hr2⟩ := ih (fun x hx => h x (List.mem_cons_of_mem _ hx))
+    have hag := hp e loc false true
+    have he := h e (List.mem_cons_self)
+    cases hpe : p e loc false true with
+    | hang => exact absurd hpe he
+    | idx => rw [hpe] at hag; exact hag.elim
+    | fail c l =>
+      rw [hpe] at hag
+      refine ⟨pick none r2, .orCons hag.2 hs2, ?_⟩
+      have : trialCand p loc e = none := by simp [trialCand, tryParse_true, hpe]
+      simp only [List.filterMap_cons, this, pick]
+      exact hr2
+    | ok l ts =>
+      rw [hpe] at hag
+      simp only [agrees_ok] at hag
+      refine ⟨pick (some (l, ts)) r2, .orCons hag hs2, ?_⟩
+      have : trialCand p loc e = some (l, e) := by simp [trialCand, tryParse_true, hpe]
+      simp only [List.filterMap_cons, this, best]
+      cases hb : best (List.filterMap (trialCand p loc) es) with
+      | none =>
+        rw [hb] at hr2
+        cases r2 with
+        | none => exact ⟨rfl, hag⟩
+        | some y => exact hr2.elim
+      | some b =>
+        rw [hb] at hr2
+        cases r2 with
+        | none => exact hr2.elim
+        | some y =>
+          obtain ⟨h1, h2⟩ := hr2
+          simp only [pick, ← h1]
+          by_cases hgt : b.1 > l
+          · simp only [hgt, if_true]; exact ⟨h1, h2⟩
+          · simp only [hgt, if_false]; exact ⟨rfl, hag⟩
+
+theorem best_mem : ∀ (cs : List (Nat × Nat)) (b : Nat × Nat), best cs = some b → b ∈ cs := by
+  intro cs b h
+  obtain ⟨pre, post, hcs, _, _⟩ := best_spec cs b h
+  rw [hcs]; simp
+
+/-- candidates of a completed trial pass (started from the empty accumulator) -/
+theorem orPass1_cands_eq (p : P) (nl : Nat → Nat) (slen loc : Nat) (es : List Nat) (a : OrAcc)
+    (h : orPass1 p nl slen loc es {} = some a) : a.cands = es.filterMap (trialCand p loc) := by
+  have := orPass1_cands p nl slen loc es {} a h
+  rw [this]
+  simp only [List.nil_append]
+  congr 1
+
+theorem trialCand_spec {p : P} {loc : Nat} {es : List Nat} {b : Nat × Nat} (hb : b ∈ es.filterMap (trialCand p loc)) :
+    b.2 ∈ es ∧ ∃ ts, p b.2 loc false true = .ok b.1 ts := by
+  obtain ⟨e, he, hc⟩ := List.mem_filterMap.mp hb
+  unfold trialCand at hc
+  rw [tryParse_true] at hc
+  cases hp : p e loc false true with
+  | ok l ts => rw [hp] at hc; simp at hc; subst hc; exact ⟨he, ts, hp⟩
+  | fail c l => rw [hp] at hc; simp at hc
+  | idx => rw [hp] at hc; simp at hc
+  | hang => rw [hp] at hc; simp at hc
+
+/-- with a best candidate `b`, `Or` returns the (re-)parse of that alternative — also in the pass with actions, where
+    the re-parse reaches the trial's end because the reading is deterministic -/
+theorem orAt_eq {g : Grammar} {s : List Char} {p : P} (hp : AgreeP g s p) (nl : Nat → Nat) (slen : Nat) (acts : Bool)
+    (es : List Nat) (loc : Nat) (a : OrAcc) (h1 : orPass1 p nl slen loc es {} = some a) (b : Nat × Nat)
+    (hb : best a.cands = some b) : orAt p nl slen acts es loc = p b.2 loc acts true := by
+  cases acts with
+  | false => exact (or_longest_leftmost p nl slen es loc a h1 b hb).1
+  | true =>
+    have hne : a.cands.isEmpty = false := by
+      cases hc : a.cands with
+      | nil => rw [hc] at hb; simp [best] at hb
+      | cons x xs => rfl
+    have hh := sortDesc_head a.cands
+    rw [hb] at hh
+    have hmem : b ∈ es.filterMap (trialCand p loc) := by
+      rw [← orPass1_cands_eq p nl slen loc es a h1]; exact best_mem _ _ hb
+    obtain ⟨_, ts0, htrial⟩ := trialCand_spec hmem
+    have hag0 := hp b.2 loc false true
+    rw [htrial] at hag0
+    simp only [agrees_ok] at hag0
+    cases hs : sortDesc a.cands with
+    | nil => rw [hs] at hh; simp at hh
+    | cons m ms =>
+      rw [hs] at hh; simp at hh; subst hh
+      obtain ⟨m1, m2⟩ := m
+      have hag := hp m2 loc true true
+      simp only [orAt, h1, hne, Bool.false_eq_true, if_false, Bool.not_true, hs]
+      cases hre : p m2 loc true true with
+      | ok l2 ts =>
+        rw [hre] at hag
+        simp only [agrees_ok] at hag
+        have := Sem.det hag0 _ hag
+        simp only [Option.some.injEq, Prod.mk.injEq] at this
+        have hge : l2 ≥ m1 := by omega
+        simp [orPass2, orPass2.orStep, hre, hge]
+      | fail c l =>
+        rw [hre] at hag
+        exact absurd (Sem.det hag0 _ hag.2) (by simp)
+      | idx => rw [hre] at hag; exact hag.elim
+      | hang => simp [orPass2, orPass2.orStep, hre]
+
+theorem orAt_sound {g : Grammar} {s : List Char} {p : P} (hp : AgreeP g s p) (nl : Nat → Nat) (slen : Nat) (acts : Bool)
+    (es : List Nat) (loc : Nat) : Agrees g s (.orScan es loc) (orAt p nl slen acts es loc) := by
+  cases h1 : orPass1 p nl slen loc es {} with
+  | none => simp [orAt, h1]
+  | some a =>
+    obtain ⟨r, hs, hrel⟩ := orScan_sound hp loc es (orPass1_nohang p nl slen loc es {} a h1)
+    rw [← orPass1_cands_eq p nl slen loc es a h1] at hrel
+    have hfat := orPass1_fatals hp nl slen loc es {} a h1 rfl
+    cases hb : best a.cands with
+    | none =>
+      rw [hb] at hrel
+      have hemp : a.cands = [] := by
+        cases hc : a.cands with
+        | nil => rfl
+        | cons x xs =>
+          rw [hc] at hb
+          simp only [best] at hb
+          cases h2 : best xs with
+          | none => simp [h2] at hb
+          | some c => simp only [h2] at hb; split at hb <;> simp at hb
+      cases r with
+      | some x => exact hrel.elim
+      | none =>
+        simp only [orAt, h1, hemp, List.isEmpty_nil, if_true, orAfter, hfat, pickFatal]
+        cases a.mx <;> exact ⟨rfl, hs⟩
+    | some b =>
+      rw [hb] at hrel
+      rw [orAt_eq hp nl slen acts es loc a h1 b hb]
+      cases r with
+      | none => exact hrel.elim
+      | some x =>
+        obtain ⟨_, hsb⟩ := hrel
+        have hag := hp b.2 loc acts true
+        cases hre : p b.2 loc acts true with
+        | ok l ts =>
+          rw [hre] at hag
+          simp only [agrees_ok] at hag ⊢
+          have := Sem.det hsb _ hag
+          rw [← this]; exact hs
+        | fail c l =>
+          rw [hre] at hag
+          exact absurd (Sem.det hsb _ hag.2) (by simp)
+        | idx => rw [hre] at hag; exact hag.elim
+        | hang => trivial
+
+theorem best_none : ∀ (cs : List (Nat × Nat)), best cs = none → cs = [] := by
+  intro cs hb
+  cases cs with
+  | nil => rfl
+  | cons x xs =>
+    simp only [best] at hb
+    cases h2 : best xs with
+    | none => simp [h2] at hb
+    | some c => simp only [h2] at hb; split at hb <;> simp at hb
+
+/-- `Or` returns as soon as every alternative's parse (trial and real) returns -/
+theorem orAt_nohang {g : Grammar} {s : List Char} {p : P} (hp : AgreeP g s p) (nl : Nat → Nat) (slen : Nat) (acts : Bool)
+    (es : List Nat) (loc : Nat) (hnh : ∀ e ∈ es, ∀ a, p e loc a true ≠ .hang) : orAt p nl slen acts es loc ≠ .hang := by
+  obtain ⟨a, h1⟩ := orPass1_some p nl slen loc es {} (fun e he => hnh e he false)
+  cases hb : best a.cands with
+  | none =>
+    have hemp := best_none _ hb
+    simp only [orAt, h1, hemp, List.isEmpty_nil, if_true, orAfter]
+    split
+    · simp
+    · split <;> simp
+  | some b =>
+    rw [orAt_eq hp nl slen acts es loc a h1 b hb]
+    have hmem : b ∈ es.filterMap (trialCand p loc) := by
+      rw [← orPass1_cands_eq p nl slen loc es a h1]; exact best_mem _ _ hb
+    exact hnh b.2 (trialCand_spec hmem).1 acts
+
 /-! ### the character-class terminals behave like terminals -/
 
 
@@ -330,8 +749,23 @@ theorem optDefault_plain {g : Grammar} (hg : Plain g) {nd : Node} (hacts : nd.ac
         simp [hn.1.2]
     simp [this, optNoMatch, dfltToks]
 
+theorem preParse_plain (p : P) (nd : Node) (hn : plainNode nd = true) (s : List Char) (loc : Nat) :
+    preParse p nd s loc = .at (if nd.skipWs then skipWhite nd.white s loc else loc) := by
+  simp only [plainNode, Bool.and_eq_true, List.isEmpty_iff] at hn
+  obtain ⟨⟨hk, _⟩, hign⟩ := hn
+  unfold preParse
+  cases hkind : nd.kind <;> simp_all [plainKind]
+
+theorem orImpl_pre (g : Grammar) (p : P) (nd : Node) (hn : plainNode nd = true) (s : List Char) (es : List Nat)
+    (loc : Nat) : (if es.all (callPreOf g) = true then preParse p nd s loc else PreR.at loc) =
+      .at (orStart g nd s es loc) := by
+  rw [preParse_plain p nd hn]
+  unfold orStart
+  cases es.all (callPreOf g) <;> cases nd.skipWs <;> simp
+
 theorem parseImpl_sound {g : Grammar} {s : List Char} {p : P} (hg : Plain g) (hp : AgreeP g s p) (nd : Node)
     (hn : plainNode nd = true) (loc : Nat) (a : Bool) : AgreesImpl g s nd loc (parseImpl g p nd s loc a) := by
+  have hn0 := hn
   simp only [plainNode, Bool.and_eq_true, List.isEmpty_iff] at hn
   obtain ⟨⟨hk, hacts⟩, hign⟩ := hn
   unfold parseImpl
@@ -394,6 +828,10 @@ theorem parseImpl_sound {g : Grammar} {s : List Char} {p : P} (hg : Plain g) (hp
   | matchFirst es =>
     apply AgreesImpl.of_agrees
     exact Agrees.lift (fun r hr => .matchFirst hkind hr) (mfGo_sound hp a s.length loc es none)
+  | or es =>
+    unfold orImpl
+    simp only [orImpl_pre g p nd hn0 s es loc]
+    exact AgreesImpl.of_agrees (Agrees.lift (fun r hr => .or hkind hr) (orAt_sound hp _ s.length a es _))
   | opt e d =>
     have h := hp e loc a false
     simp only
@@ -471,13 +909,6 @@ theorem parseImpl_sound {g : Grammar} {s : List Char} {p : P} (hg : Plain g) (hp
   | wordEnd cs => exact term_sound (by simp [termImpl, hkind])
   | _ => simp [hkind, plainKind] at hk
 
-theorem preParse_plain (p : P) (nd : Node) (hn : plainNode nd = true) (s : List Char) (loc : Nat) :
-    preParse p nd s loc = .at (if nd.skipWs then skipWhite nd.white s loc else loc) := by
-  simp only [plainNode, Bool.and_eq_true, List.isEmpty_iff] at hn
-  obtain ⟨⟨hk, _⟩, hign⟩ := hn
-  unfold preParse
-  cases hkind : nd.kind <;> simp_all [plainKind]
-
 theorem pre_eq_startAt (p : P) (nd : Node) (hn : plainNode nd = true) (s : List Char) (loc : Nat) (cp : Bool) :
     (if (cp && nd.callPre) = true then preParse p nd s loc else PreR.at loc) = .at (startAt nd s loc cp) := by
   rw [preParse_plain p nd hn]
@@ -520,142 +951,6 @@ theorem parse_sound {g : Grammar} {s : List Char} (hg : Plain g) : ∀ f, AgreeP
   | zero => intro _ _ _ _; trivial
   | succ f ih => exact parseStep_sound hg ih
 
-/-! ### the reading is a partial function -/
-
-
-theorem leaf_wrapped_absurd {k : Kind} {s : List Char} {loc : Nat} {r : Res} {e : Nat}
-    (h1 : leafSem k s loc = some r) (h2 : wrapped k = some e) : False := by
-  cases k <;> simp_all [leafSem, wrapped, termImpl]
-
-theorem Sem.det {g : Grammar} {s : List Char} {t : Task} {r1 : Res} (h1 : Sem g s t r1) :
-    ∀ r2, Sem g s t r2 → r1 = r2 := by
-  induction h1 with
-  | node hg _ ih =>
-    intro r2 h2
-    cases h2 with
-    | node hg2 h2' => rw [hg] at hg2; cases hg2; rw [ih _ h2']
-  | leaf hl =>
-    intro r2 h2
-    cases h2 with
-    | wrap hw _ => exact (leaf_wrapped_absurd hl hw).elim
-    | _ => simp_all [leafSem, termImpl]
-  | andFail hk _ ih =>
-    intro r2 h2
-    cases h2 with
-    | leaf hl => simp_all [leafSem, termImpl]
-    | wrap hw _ => simp_all [wrapped]
-    | andFail hk2 _ => rfl
-    | andOk hk2 h0 _ => rw [hk] at hk2; cases hk2; exact absurd (ih _ h0) (by simp)
-    | _ => simp_all
-  | andOk hk _ _ ih0 ih1 =>
-    intro r2 h2
-    cases h2 with
-    | leaf hl => simp_all [leafSem, termImpl]
-    | wrap hw _ => simp_all [wrapped]
-    | andFail hk2 h0 => rw [hk] at hk2; cases hk2; exact absurd (ih0 _ h0) (by simp)
-    | andOk hk2 h0 h1 =>
-      rw [hk] at hk2; cases hk2
-      have := ih0 _ h0
-      simp only [Option.some.injEq, Prod.mk.injEq] at this
-      obtain ⟨rfl, rfl⟩ := this
-      exact ih1 _ h1
-    | _ => simp_all
-  | seqNil => intro r2 h2; cases h2; rfl
-  | seqFail _ ih =>
-    intro r2 h2
-    cases h2 with
-    | seqFail _ => rfl
-    | seqOk h0 _ => exact absurd (ih _ h0) (by simp)
-  | seqOk _ _ ih0 ih1 =>
-    intro r2 h2
-    cases h2 with
-    | seqFail h0 => exact absurd (ih0 _ h0) (by simp)
-    | seqOk h0 h1 =>
-      have := ih0 _ h0
-      simp only [Option.some.injEq, Prod.mk.injEq] at this
-      obtain ⟨rfl, rfl⟩ := this
-      exact ih1 _ h1
-  | matchFirst hk _ ih =>
-    intro r2 h2
-    cases h2 with
-    | leaf hl => simp_all [leafSem, termImpl]
-    | wrap hw _ => simp_all [wrapped]
-    | matchFirst hk2 h0 => rw [hk] at hk2; cases hk2; exact ih _ h0
-    | _ => simp_all
-  | altNil => intro r2 h2; cases h2; rfl
-  | altOk _ ih =>
-    intro r2 h2
-    cases h2 with
-    | altOk h0 => exact ih _ h0
-    | altNext h0 _ => exact absurd (ih _ h0) (by simp)
-  | altNext _ _ ih0 ih1 =>
-    intro r2 h2
-    cases h2 with
-    | altOk h0 => exact absurd (ih0 _ h0) (by simp)
-    | altNext _ h1 => exact ih1 _ h1
-  | opt hk _ ih =>
-    intro r2 h2
-    cases h2 with
-    | leaf hl => simp_all [leafSem, termImpl]
-    | wrap hw _ => simp_all [wrapped]
-    | opt hk2 h0 => rw [hk] at hk2; cases hk2; rw [ih _ h0]
-    | _ => simp_all
-  | manyFail hk _ ih =>
-    intro r2 h2
-    cases h2 with
-    | leaf hl => simp_all [leafSem, termImpl]
-    | wrap hw _ => simp_all [wrapped]
-    | manyFail hk2 _ => rw [hk] at hk2; cases hk2; rfl
-    | manyOk hk2 h0 _ => rw [hk] at hk2; cases hk2; exact absurd (ih _ h0) (by simp)
-    | _ => simp_all
-  | manyOk hk _ _ ih0 ih1 =>
-    intro r2 h2
-    cases h2 with
-    | leaf hl => simp_all [leafSem, termImpl]
-    | wrap hw _ => simp_all [wrapped]
-    | manyFail hk2 h0 => rw [hk] at hk2; cases hk2; exact absurd (ih0 _ h0) (by simp)
-    | manyOk hk2 h0 h1 =>
-      rw [hk] at hk2; cases hk2
-      have := ih0 _ h0
-      simp only [Option.some.injEq, Prod.mk.injEq] at this
-      obtain ⟨rfl, rfl⟩ := this
-      exact ih1 _ h1
-    | _ => simp_all
-  | starStop _ ih =>
-    intro r2 h2
-    cases h2 with
-    | starStop _ => rfl
-    | starStep h0 _ _ => exact absurd (ih _ h0) (by simp)
-  | starStep _ _ _ ih0 ih1 =>
-    intro r2 h2
-    cases h2 with
-    | starStop h0 => exact absurd (ih0 _ h0) (by simp)
-    | starStep h0 _ h1 =>
-      have := ih0 _ h0
-      simp only [Option.some.injEq, Prod.mk.injEq] at this
-      obtain ⟨rfl, rfl⟩ := this
-      exact ih1 _ h1
-  | notAny hk _ ih =>
-    intro r2 h2
-    cases h2 with
-    | leaf hl => simp_all [leafSem, termImpl]
-    | wrap hw _ => simp_all [wrapped]
-    | notAny hk2 h0 => rw [hk] at hk2; cases hk2; rw [ih _ h0]
-    | _ => simp_all
-  | followedBy hk _ ih =>
-    intro r2 h2
-    cases h2 with
-    | leaf hl => simp_all [leafSem, termImpl]
-    | wrap hw _ => simp_all [wrapped]
-    | followedBy hk2 h0 => rw [hk] at hk2; cases hk2; rw [ih _ h0]
-    | _ => simp_all
-  | wrap hw _ ih =>
-    intro r2 h2
-    cases h2 with
-    | leaf hl => exact (leaf_wrapped_absurd hl hw).elim
-    | wrap hw2 h0 => rw [hw] at hw2; cases hw2; exact ih _ h0
-    | _ => simp_all [wrapped]
-
 /-! ### completeness: every result of the reading is returned, given enough fuel -/
 
 
@@ -697,6 +992,7 @@ def CompleteT (g : Grammar) (s : List Char) : Task → Res → Prop
   | .star e loc acc, r => loc ≤ s.length + 1 →
       ∃ f, ∀ a (nd : Node) k, nd.ignore = [] → s.length + 2 - loc ≤ k →
         Ret (manyLoop (parse g s f) nd a s.length e none k loc acc) r
+  | .orScan es loc, _ => loc ≤ s.length + 1 → ∃ f, ∀ e ∈ es, ∀ a, parse g s f e loc a true ≠ .hang
 
 theorem isStopG_false {g : Grammar} (hg : Plain g) (e : Nat) : isStopG g e = false := isStop_false hg e
 
@@ -880,6 +1176,48 @@ theorem Sem.complete {g : Grammar} {s : List Char} (hg : Plain g) {t : Task} {r 
       rw [Nat.add_comm f1 f0] at this
       rw [this]; exact h2
     exact key _
+  | @orNil loc => intro _; exact ⟨0, fun e he => by cases he⟩
+  | @orCons e es loc r1 r2 _ _ ih0 ih1 =>
+    intro hl
+    obtain ⟨f0, hf0⟩ := ih0 hl
+    obtain ⟨f1, hf1⟩ := ih1 hl
+    refine ⟨f0 + f1, fun x hx a => ?_⟩
+    rcases List.mem_cons.mp hx with rfl | hx
+    · have h := (hf0 a).ne_hang
+      rw [parse_lift f1 rfl h]; exact h
+    · have h := hf1 x hx a
+      rw [parse_lift' f0 rfl h]; exact h
+  | @or nd loc es r hk hscan ih =>
+    intro hn hl
+    have hl' : orStart g nd s es loc ≤ s.length + 1 := by
+      unfold orStart
+      split
+      · exact skipWhite_le _ _ _ _ (by omega) hl
+      · exact hl
+    obtain ⟨f, hf⟩ := ih hl'
+    refine ⟨f, fun a => ?_⟩
+    have hs := parseImpl_sound (s := s) hg (parse_sound hg f) nd hn loc a
+    have hnh : parseImpl g (parse g s f) nd s loc a ≠ .hang := by
+      unfold parseImpl
+      simp only [hk]
+      unfold orImpl
+      simp only [orImpl_pre g _ nd hn s es loc]
+      exact orAt_nohang (s := s) (parse_sound hg f) _ _ a es _ hf
+    have hsem : Sem g s (.impl nd loc) r := .or hk hscan
+    cases ho : parseImpl g (parse g s f) nd s loc a with
+    | ok e ts =>
+      rw [ho] at hs
+      have := Sem.det hsem _ hs
+      subst this; rfl
+    | fail c l =>
+      rw [ho] at hs
+      have := Sem.det hsem _ hs.2
+      subst this; exact Or.inl ⟨l, by rw [hs.1]⟩
+    | idx =>
+      rw [ho] at hs
+      have := Sem.det hsem _ hs.2
+      subst this; exact Or.inr ⟨rfl, hs.1⟩
+    | hang => exact absurd ho hnh
   | @opt nd loc e d r hk _ ih =>
     intro hn hl
     obtain ⟨f, hf⟩ := ih hl
